@@ -34,6 +34,8 @@ props! {
     "C12" => c12,
     "C14" => c14,
     "C15" => c15,
+    "C16" => c16,
+    "C17" => c17,
     "C19" => c19,
     "C20" => c20,
 }
